@@ -76,9 +76,9 @@ def obligations(tier):
         for p in range(8):
             obls.append(CH("transitive_p%d" % p, H, "transitive", t, mode="E1s", functions=FE, stubs=[ANTLR], env={"VERIF_PART": str(p)},
                            bounds="all triples of 31 shapes (first shape %% 8 == %d) x 3x3 atoms" % p))
-    obls.append(CH("documented_rewrites", H, "rewrites", t, mode="E1s", functions=FE, stubs=[ANTLR], bounds="21 documented rewrites (both directions), 18 non-equivalences (incl. integers beyond 2^53, paths through index 0)"))
+    obls.append(CH("documented_rewrites", H, "rewrites", t, mode="E1s", functions=FE, stubs=[ANTLR], bounds="26 documented rewrites (both directions), 56 non-equivalences (integers beyond 2^53, paths through index 0; special-value canonicalisation confined to its paths, object types and operators: longer / shorter paths, other types, MATCHES / LIKE / order operators, the same literal on a special and an ordinary path), each after a fixed history of special-value comparisons, also by search"))
     obls.append(CH("documented_rewrites_in_context", H, "rewrites_nested", t, mode="E1s", functions=FE + FT, stubs=[ANTLR],
-                   bounds="21 documented rewrites x 19 comparison-/observation-level contexts (one and two holes): C[p] ~ C[q] both directions and by search"))
+                   bounds="26 documented rewrites x 19 comparison-/observation-level contexts (one and two holes): C[p] ~ C[q] both directions and by search"))
     obls.append(CH("special_values_total", H, "specials_total", t, mode="E1s", functions=FS + FE, stubs=[ANTLR],
                    bounds="6 object paths x 18 constants of every kind x 4 operators x NOT"))
     for p in list(range(7)) + list(range(7, 12)):
